@@ -103,6 +103,16 @@ def check_crate(ctx, config, w, crate, dims, counts):
             for rv in (r_, "&" + r_):
                 if (sv, rv) != (s_, r_):
                     optional.add((op, sv, rv, o_))
+    if crate.name == "quantities":
+        # the dimensionless analogue of the per-quantity rate operators (value x rate-per-value, value / rate) and
+        # borrowed-operand variants of `rate * value`: dimensionally the same operations as the forms above
+        optional |= {("*", amt, "quantities::rate::Rate<$G0,%s>" % amt, "$G0"), ("/", amt, "quantities::rate::Rate<%s,$G0>" % amt, "$G0")}
+        import re
+        proj = re.compile(r"^<&?quantities::rate::Rate<\w+, \w+> as core::ops::arith::Mul<&?\w+>>::Output$")
+        for e in set(actual) - expected:
+            if e[0] == "*" and e[1].lstrip("&") == "quantities::rate::Rate<$G0,$G1>" and e[2].lstrip("&") == "$G1" and (e[1], e[2]) != ("quantities::rate::Rate<$G0,$G1>", "$G1") \
+                    and (e[3] == "$G0" or proj.match(e[3])):
+                optional.add(e)
     for e in sorted(set(actual) - expected):
         if e in optional:
             ctx.ob("impl-table", "%s/%s" % (label, fmt(e)), len(actual[e]) == 1, "impl `%s` exists %d times" % (fmt(e), len(actual[e])), actual[e][0]["span"], nontrivial=False)
@@ -116,7 +126,7 @@ def check_crate(ctx, config, w, crate, dims, counts):
     for e, imps in actual.items():
         for imp in imps:
             tparams = [g["name"] for g in imp["generics"] if g["kind"] == "type"]
-            ok = not tparams or (e[2].startswith("quantities::rate::Rate<") and len(tparams) == 1) or e[1].startswith("quantities::rate::Rate<")
+            ok = not tparams or (e[2].startswith("quantities::rate::Rate<") and len(tparams) == 1) or e[1].lstrip("&").startswith("quantities::rate::Rate<")
             ctx.ob("no-blanket-impl", "%s/%s" % (label, fmt(e)), ok, "operator impl `%s` is generic over %s" % (fmt(e), tparams), imp["span"], nontrivial=False)
     # ---- rule 1: like-with-like ------------------------------------------------
     for (op, s, r, imp) in U.cmp_impls(crate):
